@@ -148,6 +148,19 @@ def specFrames : Nat → Bytes → List (Nat × Bytes)
         | some (len, r2) =>
           if r2.length < len then [] else (ty, r2.take len) :: specFrames fuel (r2.drop len)
 
+/-- what is left of the input once every complete frame at its front is taken (same framing) -/
+def specRest : Nat → Bytes → Bytes
+  | 0, b => b
+  | fuel + 1, b =>
+    match Spec.varint b with
+    | none => b
+    | some (ty, r1) =>
+      if ty == Spec.FRAME_WEBTRANSPORT_STREAM then b
+      else match Spec.varint r1 with
+        | none => b
+        | some (len, r2) =>
+          if r2.length < len then b else specRest fuel (r2.drop len)
+
 /-- a complete DATA / HEADERS / SETTINGS / GREASE frame at the front of the input whose payload is
 within the 4096-byte limit (by the independent framing of `Spec`) is delivered as that frame -/
 def completeFrameDelivered (b : Bytes) (o : String) : Bool :=
